@@ -31,6 +31,22 @@ Theorem C09_success : forall (E : env) (cf : cfg (eF E)) fuel n take_best b s s'
 Proof. exact solve_success. Qed.
 Print Assumptions C09_success.
 
+(* in particular a residual that is not below its tolerance -- a NaN residual
+   (sin(x)/x at 0, sqrt or log outside the domain) or a NaN tolerance (tol=None):
+   every comparison with NaN is false -- is never accepted: solve() cannot return
+   normally with such an active target at the knobs it leaves *)
+Theorem C09_undefined_residual_not_accepted : forall (E : env) (cf : cfg (eF E)) fuel n take_best b s s' r i ri v t,
+  solve E cf fuel n take_best b s = Ok s' -> c_assert cf = true ->
+  e_f E (knobs s') = Some r -> nth_error (ta s') i = Some true -> nth_error r i = Some ri ->
+  nth_error (c_tval cf) i = Some v -> nth_error (c_tol cf) i = Some t ->
+  e_ltb E (e_abs E (e_sub E ri v)) t = false -> False.
+Proof.
+  intros E cf fuel n tb b s s' r i ri v t Hs Ha Hf Hi Hr Hv Ht Hn.
+  destruct (solve_success E cf fuel n tb b s s' Hs Ha) as (r' & Hf' & Hw).
+  rewrite Hf in Hf'. inversion Hf'; subst r'. rewrite (Hw i ri v t Hi Hr Hv Ht) in Hn. discriminate.
+Qed.
+Print Assumptions C09_undefined_residual_not_accepted.
+
 (* solve() raising (any exception: not within tolerance, limit violation, the
    user's action, LinAlgError, assertion) with restore_if_fail: the active flags
    are those of row 0 of the log and every knob is row 0's value or its weight
@@ -60,7 +76,7 @@ Definition xenv : env :=
         (fun k => Some k) (fun y => fold_right (fun a acc => (a * a + acc)%Qc) 0%Qc y)
         (fun _ _ => Some []) (fun j _ _ _ _ => j).
 Definition xcfg (target : Qc) : cfg Qc :=
-  mkCfg [1%Qc] [None] [1%Qc] [None] [0%N] [0%N] [target] [1%Qc] [1%Qc] [0%N] 2 true true.
+  mkCfg [1%Qc] [None] [1%Qc] [None] [0%N] [0%N] [target] [1%Qc] [1%Qc] [0%N] 2 true true true.
 
 Example C09_success_satisfiable :
   match bind (init xenv (xcfg 0%Qc) [0%Qc] [true]) (fun s0 => solve xenv (xcfg 0%Qc) 50 None true BroOff s0) with
